@@ -277,13 +277,22 @@ func genC03(t *rapid.T) *c03Case {
 				c.Mutations = append(c.Mutations, fmt.Sprintf("badpath[%d]=%q", j, c.Stats[j].Path))
 			}
 		case 1: // new hostile entry appended or inserted
-			p := rapid.SampledFrom(c03BadPaths).Draw(t, li+"newpath")
+			p := rapid.SampledFrom(append([]string{"", ""}, c03BadPaths...)).Draw(t, li+"newpath")
 			md := rapid.SampledFrom([]uint32{0o644, uint32(os.ModeDir | 0o755), uint32(os.ModeSymlink | 0o777)}).Draw(t, li+"newmode")
 			st := hStat{Path: h.BStr(p), Mode: md, Size: 3, Seed: 9}
 			if os.FileMode(md)&os.ModeSymlink != 0 {
 				st.Link = "/outside/secret"
 			}
 			j := rapid.IntRange(0, len(c.Stats)).Draw(t, li+"at")
+			if p == "" && rapid.Bool().Draw(t, li+"allzero") {
+				// a STAT whose stat is present but has every field at its zero value (it
+				// encodes to nothing); at the very end it looks most like the marker
+				st = hStat{}
+				if rapid.Bool().Draw(t, li+"zeroatend") {
+					j = len(c.Stats)
+					c.Script.NoMarker = rapid.Bool().Draw(t, li+"nomarker")
+				}
+			}
 			c.Stats = append(c.Stats[:j], append([]hStat{st}, c.Stats[j:]...)...)
 			c.Mutations = append(c.Mutations, fmt.Sprintf("insert[%d]=%q", j, p))
 		case 2: // swap neighbours / unsort
@@ -485,7 +494,7 @@ func c03Check(env *h.Env, c *c03Case) error {
 		return h.Infra(err)
 	}
 	firstBad, unspecified := c03Classify(c)
-	hostile := firstBad >= 0 || len(c.Script.Inject) > 0 || c.Script.Tail == "eof" || c.Script.LateData > 0
+	hostile := firstBad >= 0 || len(c.Script.Inject) > 0 || c.Script.Tail == "eof" || c.Script.LateData > 0 || c.Script.NoMarker
 	for _, st := range c.Stats {
 		// a mode with several type bits is no entry type at all: verdict open, containment only
 		if tb := os.FileMode(st.Mode) & os.ModeType; tb&(tb-1) != 0 && tb != os.ModeDevice|os.ModeCharDevice {
